@@ -19,6 +19,7 @@ import (
 	"github.com/formancehq/ledger/internal/storage/common"
 	ledgerstore "github.com/formancehq/ledger/internal/storage/ledger"
 	"github.com/formancehq/ledger/verifharness/core"
+	"github.com/formancehq/ledger/verifharness/sim"
 )
 
 // C28VM — machine-runtime half of C28 (stored transactions only contain
@@ -60,7 +61,19 @@ func init() {
 			"the fake store answers every balance query with the configured balance (default 1000) and serves the configured account metadata verbatim",
 			"a posting returned by a successful run is taken to be what would be committed; runs that return an error are only counted",
 		},
-		Run: func(r *core.Run) { runC28VM(r); runC28Committed(r) },
+		Run: func(r *core.Run) {
+			runC28VM(r)
+			runC28Committed(r)
+			// loop `histories`: every transaction COMMITTED by a random sequential history — creates AND the
+			// revert transactions the controller builds itself (30% reverts, multi-posting chains) — is scanned
+			// by the mirror's well-formedness monitor (signatures C28/ill-formed-posting-committed:<kind>)
+			runSeq(r, seqConfig{Prop: "C28", Histories: [2]int{150, 3000}, OpsPer: [2]int{30, 50},
+				Mutate: func(op *sim.Op, rng *rand.Rand, st *sim.GenState) {
+					if len(st.TxIDs) > 0 && rng.Intn(100) < 30 {
+						*op = sim.Op{Kind: "revert", TxID: st.TxIDs[rng.Intn(len(st.TxIDs))], Force: rng.Intn(3) == 0, AtEffectiveDate: rng.Intn(2) == 0}
+					}
+				}})
+		},
 	})
 }
 
